@@ -391,6 +391,122 @@ def rule_f(prog, chk):
                detail=None if ok else "`%s` is not C(0) - C(h) built from the same evaluation" % show(x)[:60], key="C03f|_evalCorFromH")
 
 
+def rule_g(prog, chk):
+    """C03g - variable numbers vs ranks in a list of requested variables (E5 kinds).  The matrix builders take a list `ivars` of
+    variable numbers; a loop variable bounded by the length of that list is a RANK in the list and reaches a sill / covariance
+    evaluation only through `ivars[rank]`: used directly, the covariance of another variable pair (a cross-sill on the diagonal) is
+    written, and the matrix is no longer positive semi-definite."""
+    import argswap
+    n = nk = 0
+    for f in sorted(prog.funcs, key=lambda x: (x.file, x.line)):
+        if f.body is None or "src/Covariances/" not in f.file:
+            continue
+        lists = {p["d"] for p in f.params if "VectorInt" in p["t"] and "var" in p["n"].lower()} | \
+                {x["d"] for x in f.walk() if x["k"] == "VarDecl" and "VectorInt" in (x.get("t") or "") and "var" in x["n"].lower()}
+        if not lists:
+            continue
+        ranks = set()
+        for loop in f.walk():
+            if loop["k"] == "For" and loop["c"][1] is not None:
+                for x in walk(loop["c"][1]):
+                    if x["k"] == "BinOp" and x.get("op") == "<" and x["c"][0] is not None and x["c"][0]["k"] == "DeclRefExpr":
+                        b = x["c"][1]
+                        for _ in range(3):
+                            while b is not None and b["k"] == "Cast":
+                                b = b["c"][0]
+                            if b is not None and b["k"] == "DeclRefExpr" and b.get("dk") == "var":
+                                b = single_def(f, b["d"])
+                            else:
+                                break
+                        if b is not None and b["k"] == "MCall" and (b.get("callee") or "").split("::")[-1] == "size":
+                            o = call_obj(b)
+                            if o is not None and o["k"] == "DeclRefExpr" and o.get("d") in lists:
+                                ranks.add(x["c"][0]["d"])
+        if not ranks:
+            continue
+        for c in f.calls():
+            if c["k"] not in ("MCall", "Call"):
+                continue
+            args = call_args(c)
+            short = (c.get("callee") or "").split("::")[-1]
+            # names of the parameters at each position, over every declaration of that name and arity
+            names_at = {}
+            cal = c.get("callee") or ""
+            cands = [[(p["n"]) for p in g.params] for g in prog.fns(cal) if len(g.params) >= len(args)]
+            if "::" in cal:
+                cls_, sh_ = cal.rsplit("::", 1)
+                for k_ in [cls_] + prog.bases(cls_) + prog.derived(cls_):
+                    for m in prog.classes.get(k_, {}).get("methods", []):
+                        if m["n"] == sh_ and len(m["params"]) >= len(args):
+                            cands.append([p["n"] for p in m["params"]])
+            for cand in cands:
+                for i_, nm in enumerate(cand):
+                    names_at.setdefault(i_, set()).add(nm)
+            P = None
+            sill = c["k"] == "MCall" and call_obj(c) is not None and show(call_obj(c)) == "_sill" and short == "getValue"
+            for i, a in enumerate(args):
+                x = a
+                while x is not None and x["k"] == "Cast":
+                    x = x["c"][0]
+                if x is None or x["k"] != "DeclRefExpr":
+                    continue
+                allowed = {"ivar", "jvar", "ivar0", "jvar0", "ivar1", "jvar1", "ivar2", "jvar2"}
+                wants_var = (sill and i < 2) or (bool(names_at.get(i)) and names_at[i] <= allowed)
+                if not wants_var:
+                    continue
+                n += 1
+                bad = x.get("d") in ranks
+                if bad:
+                    chk.analysed(f)
+                chk.ob("C03g", "%s: the variable number passed to %s is not a rank in the list of requested variables" % (f.name, short), f.loc(c), not bad,
+                       detail=None if not bad else "`%s` ranges over the positions of the list of requested variables and is used as a variable number: when the "
+                       "list is not 0,1,2.. the sill of another pair of variables is used" % x["n"],
+                       key="C03g|%s/%d|%s(%s)#%d" % (f.name, len(f.params), short, x["n"], i), nontrivial=bad)
+    chk.floor("C03g", n, 8)
+
+
+def rule_h(prog, chk):
+    """C03h - the sparse covariance matrix drops negligible terms by their ABSOLUTE value: the test that decides whether a term
+    eval(p1, p2, ..) is stored compares |value| with the threshold (a signed comparison removes every negative covariance:
+    hole-effect structures and negative cross-sills give a matrix that is not the covariance matrix)."""
+    n = 0
+    for f in [g for g in prog.fns("ACov::evalCovMatrixSparse") if g.body is not None]:
+        for c in f.calls():
+            if c["k"] != "MCall" or (c.get("callee") or "").split("::")[-1] != "add" or "NF_Triplet" not in (c.get("cls") or c.get("callee") or ""):
+                continue
+            val = call_args(c)[-1]
+            while val is not None and val["k"] == "Cast":
+                val = val["c"][0]
+            if val is None or val["k"] != "DeclRefExpr":
+                continue
+            child = c
+            for a in f.ancestors(c):
+                if a["k"] == "If" and len(a["c"]) >= 2 and a["c"][1] is child:
+                    cond = a["c"][0]
+                    uses = [y for y in walk(cond) if y["k"] == "DeclRefExpr" and y.get("d") == val.get("d")]
+                    if not uses:
+                        break
+                    n += 1
+                    chk.analysed(f)
+                    # every occurrence of the value in the condition sits inside an absolute value (ABS macro = conditional, abs / fabs call)
+                    def in_abs(u):
+                        for p in f.ancestors(u):
+                            if p is cond or p["i"] == cond["i"]:
+                                if p["k"] == "Cond" or (p["k"] == "Call" and (p.get("callee") or "") in ("abs", "fabs", "std::abs", "std::fabs")):
+                                    return True
+                                return False
+                            if p["k"] == "Cond" or (p["k"] == "Call" and (p.get("callee") or "") in ("abs", "fabs", "std::abs", "std::fabs")):
+                                return True
+                        return False
+                    ok = all(in_abs(u) for u in uses)
+                    chk.ob("C03h", "%s: the term stored in the sparse matrix is compared with the threshold by its absolute value" % f.sig(), f.loc(a), ok,
+                           detail=None if ok else "`%s` compares the signed covariance with the threshold: every negative term is dropped" % show(cond)[:60],
+                           key="C03h|%s/%d" % (f.name, len(f.params)))
+                    break
+                child = a
+    chk.floor("C03h", n, 1)
+
+
 def main(tier):
     chk = Check("C03", tier,
                 "Static clauses of covariance validity: the code of the piecewise-polynomial structures IS the published polynomial "
@@ -400,7 +516,8 @@ def main(tier):
                 "C(0)-C(h). Positive definiteness for all point sets, the non-polynomial structures (exponential, Gaussian, Matern, "
                 "Bessel ...), sums, anisotropy / rotation geometry and sill matrices are NOT decided.")
     cov = os.path.join(REPO, "src/Covariances")
-    units = [os.path.join(cov, x) for x in sorted(os.listdir(cov)) if x.startswith("Cov") and x.endswith(".cpp")] + [os.path.join(cov, "ACovFunc.cpp")]
+    units = [os.path.join(cov, x) for x in sorted(os.listdir(cov)) if x.startswith("Cov") and x.endswith(".cpp")] + \
+            [os.path.join(cov, x) for x in ("ACovFunc.cpp", "ACov.cpp", "ACovAnisoList.cpp")]
     if tier == "thorough":
         units = facts.all_units()
     d = extract(units, "C03-" + tier)
@@ -414,6 +531,8 @@ def main(tier):
     rule_d(prog, chk)
     rule_e(prog, chk)
     rule_f(prog, chk)
+    rule_g(prog, chk)
+    rule_h(prog, chk)
     chk.assumptions.append("published definitions: " + "; ".join("%s = %s" % (k, v["ref"]) for k, v in sorted(PUBLISHED.items())))
     chk.assumptions.append("bounds inf Lambda_d of isotropic correlations in R^d (Matern 1960 / Schoenberg): d=1 -1, d=2 -0.4028, d=3 -0.2173, all d: 0")
     return chk.finish()
